@@ -4,7 +4,7 @@ declare -A PR=( [C01]="C01" [C02]="C02" [C03]="C03" [C04]="C04" [C05]="C05" [C06
 for d in /verif/seeded/S_*; do
   s=$(basename $d); p=${s#S_}; p=${p%%_*}
   pf=$d/patch.diff; [ -f $d/patch_rebased.diff ] && pf=$d/patch_rebased.diff
-  out=$(bash /verif/eav/seedcheck.sh $pf ${PR[$p]} 2>&1 | grep -E "^VIOLATION|^UNDECIDED|^OK|failed obl" | cut -c1-220 | head -3 | tr '\n' ' ')
+  out=$(bash ${VERIF_HOME:-/verif}/eav/seedcheck.sh $pf ${PR[$p]} 2>&1 | grep -E "^VIOLATION|^UNDECIDED|^OK|failed obl" | cut -c1-220 | head -3 | tr '\n' ' ')
   echo "$s: $out"
 done
 git -C ${VERIF_REPO:-/repo} status --short
